@@ -1,9 +1,32 @@
--- line-protocol handler of property C04 (stub: nothing modelled yet)
+-- line-protocol handler of property C04 (Fiat–Shamir transcript): prints the prover and the verifier
+-- script of Winter/Model/Transcript.lean for the configuration of an op line
+--   run <aux> <lagrange> <gkr draws> <aux rands> <transition constraints> <assertions> <log2 trace length>
+--       <trace width> <composition columns> <FRI layers> <queries> <lde size> <extension degree> <grinding>
+--       … (the rest of the line — field, hasher, options, trace seed, AIR description — is for the harness)
+-- in the canonical text form the recording coin of harness/src/bin/c04.rs produces.
 import Winter.Drv.Util
+import Winter.Model.Transcript
 
 namespace Drv.C04
+open Model.Transcript
 
-def handle (_toks : List String) : String := "-"
+def parseCfg (t : List String) : Option Cfg :=
+  match natList (t.take 14) with
+  | some [aux, lag, gkr, ar, nt, na, ll, w, cols, layers, q, lde, ext, g] =>
+    if aux ≤ 1 ∧ lag ≤ 1 ∧ 1 ≤ ext ∧ ext ≤ 3 ∧ t.length = 19 then
+      some { aux := aux == 1, lagrange := lag == 1, gkrDraws := gkr, auxRands := ar, nTrans := nt, nAssert := na,
+             logLen := ll, width := w, cols := cols, friLayers := layers, queries := q, ldeSize := lde,
+             ext := ext, grinding := g }
+    else none
+  | _ => none
+
+def handle (toks : List String) : String :=
+  match toks with
+  | "run" :: rest =>
+    match parseCfg rest with
+    | some cfg => "P " ++ canon cfg (proverScript cfg) ++ " V " ++ canon cfg (verifierScript cfg)
+    | none => "-"
+  | _ => "-"
 
 end Drv.C04
 
